@@ -28,6 +28,7 @@ import (
 	"math/rand"
 	"net/http"
 	"net/http/httptest"
+	"os"
 	"sort"
 	"strings"
 	"sync"
@@ -58,6 +59,13 @@ type c18Ev struct {
 	// Hold (kind 4 only): the goroutine of this call is held between reading the clock for
 	// AllowN and calling AllowN until `Hold` later calls have completed (0 = not held)
 	Hold int `json:"hold,omitempty"`
+	// Late (split cases, held calls): the goroutine is held BEFORE it reads the clock for AllowN, i.e. the
+	// reading it hands to AllowN is the instant of its release, not the instant of its locked part
+	Late bool `json:"late,omitempty"`
+	// Nth (split cases, held calls): park in the Nth clock reading taken while the store mutex is free
+	// (0 / 1 = the first one, the reading for AllowN in the code as it is; a call that never takes that
+	// many unlocked readings simply runs to its end)
+	Nth int `json:"nth,omitempty"`
 	// R: the route the request takes, i.e. the chain of RateLimiter instances in front of the handler:
 	// 0 = "/" [store 0]; 1 = "/g/x" [store 0 on the group, store 1 on the route]; 2 = "/b" [store 1];
 	// 3 = "/ba" [store 1, store 0] (both on the route); 4 = "/aa" [store 0, store 0] (two instances
@@ -111,11 +119,20 @@ type c18Case struct {
 	// time for StressIDs fresh identifiers; oracle only (at most burst admissions each)
 	StressIDs int `json:"stress_ids,omitempty"`
 	StressG   int `json:"stress_g,omitempty"`
+	// StressIdle: before the goroutines are released every identifier spends its burst (one goroutine, at T0)
+	// and the clock is moved on by StressIdle ns (> ExpiresIn: the first concurrent call sweeps); still at most
+	// / exactly burst admissions per identifier at the frozen instant, whichever goroutine's locked part sweeps
+	StressIdle int64 `json:"stress_idle,omitempty"`
 	// Skew: all events are kind 4 (concurrent Store.Allow calls on a clock that is monotone in
 	// start order; some goroutines are held before AllowN, so the limiter sees their clock
 	// readings out of order: finding F19).  ExpiresIn is long enough that no sweep happens.
-	Skew bool    `json:"skew,omitempty"`
-	Evs  []c18Ev `json:"evs"`
+	Skew bool `json:"skew,omitempty"`
+	// Split: like Skew (all events kind 4, goroutines held after Unlock), but ExpiresIn is SHORT: sweeps run
+	// while goroutines are parked between their locked part and AllowN.  Compared with the split model
+	// (C18.lockStep / C18.tailStep: the schedule of locked parts and tails as it was played) and checked
+	// against the window / refusal oracles on the AllowN readings (see c18_split.go)
+	Split bool    `json:"split,omitempty"`
+	Evs   []c18Ev `json:"evs"`
 }
 
 func (p c18SP) effBurst() int64 {
@@ -381,7 +398,7 @@ func c18Replay(sp c18SP, t0 int64, calls []c18Call) (oks []bool, panicked string
 // (C18_window with d = 0; C18_skew_bucket with no backward jumps) and, since a refusal needs a
 // used-up allowance, exactly min(burst, calls) times.  Sound on every schedule: oracle only.
 func c18RunStress(c *c18Case) Result {
-	if c.StressIDs <= 0 || c.StressG <= 0 || c.StressIDs > 64 || c.StressG > 256 || c.RateNum >= c.RateDen*c18Second {
+	if c.StressIDs <= 0 || c.StressG <= 0 || c.StressIDs > 64 || c.StressG > 256 || c.RateNum >= c.RateDen*c18Second || c.StressIdle < 0 || (c.StressIdle > 0 && (!c.hexp() || c.StressIdle <= c.effExpires())) {
 		return Result{Tags: []string{"invalid-case"}}
 	}
 	var oracle string
@@ -394,6 +411,17 @@ func c18RunStress(c *c18Case) Result {
 		st := c.sp0().build()
 		frozen := c18Base.Add(time.Duration(c.T0))
 		middleware.VerifSetClock(st, func() time.Time { return frozen })
+		if c.StressIdle > 0 {
+			for i := 0; i < c.StressIDs; i++ {
+				for k := int64(0); k < c.effBurst(); k++ {
+					if ok, _ := st.Allow(fmt.Sprintf("stress-%d", i)); !ok {
+						oracle = fmt.Sprintf("refusal: first-time identifier \"stress-%d\" refused at call %d although burst is %d", i, k+1, c.effBurst())
+						return
+					}
+				}
+			}
+			frozen = c18Base.Add(time.Duration(c.T0 + c.StressIdle)) // no goroutine is running yet
+		}
 		counts := make([]int64, c.StressIDs)
 		var mu sync.Mutex
 		var wg sync.WaitGroup
@@ -431,7 +459,23 @@ func c18RunStress(c *c18Case) Result {
 			}
 		}
 	}()
-	return Result{Oracle: oracle, Tags: []string{"stress-frozen-clock"}, Nontrivial: true}
+	tags := []string{"stress-frozen-clock"}
+	if c.StressIdle > 0 {
+		tags = append(tags, "stress-return-at-the-sweep")
+	}
+	return Result{Oracle: oracle, Tags: tags, Nontrivial: true}
+}
+
+// c18GenStressIdle: the identifiers return together after more than ExpiresIn (refilled to a full burst or
+// forgotten and fresh: a full burst either way, never two)
+func c18GenStressIdle(r *rand.Rand) *c18Case {
+	c := c18GenStress(r)
+	c.RateNum, c.RateDen = int64(1+r.Intn(20)), 1
+	c.Burst = 1 + r.Intn(4)
+	c.ExpiresIn = ceilDiv(int64(c.Burst)*c18Second, c.RateNum) + int64(r.Intn(3))*c18Second
+	c.StressIdle = c.ExpiresIn + 1 + int64(r.Intn(1000))
+	c.StressG = c.Burst + 4 + r.Intn(24)
+	return c
 }
 
 func c18GenStress(r *rand.Rand) *c18Case {
@@ -997,6 +1041,8 @@ func c18Oracles(c *c18Case, obs []c18Obs) (v c18Verdict, tags []string, nontrivi
 // writing, i.e. while no other case is running
 var c18Alone sync.RWMutex
 
+var c18TolSelfTest = os.Getenv("VERIF_C18_TOLTEST") != ""
+
 func (c *c18Case) valid() bool {
 	if c.Ctor < 0 || c.Ctor > 2 || c.CustomHandlers < 0 || c.CustomHandlers > 2 {
 		return false
@@ -1193,7 +1239,14 @@ func c18Run(ci any) Result {
 	c18Alone.RLock()
 	res := c18RunLocked(c)
 	c18Alone.RUnlock()
-	if res.Oracle != "" && !strings.HasPrefix(res.Oracle, "window-noslack: ") && !strings.HasPrefix(res.Oracle, "window-skew: ") && c.StressIDs == 0 {
+	if c18TolSelfTest && res.Oracle == "" && res.Ops != "" && !c.Skew {
+		// development aid (VERIF_C18_TOLTEST=1): the band of c18Tolerable must contain the implementation's own line
+		// whenever the model agrees with it (then the framework reports a tie, since the oracle is otherwise silent)
+		if !c18Tolerable(c, res.Obs, res.Obs) {
+			res.Oracle = "selftest: c18Tolerable rejects the line the implementation produced"
+		}
+	}
+	if res.Oracle != "" && !strings.HasPrefix(res.Oracle, "window-noslack: ") && !strings.HasPrefix(res.Oracle, "window-skew: ") && !strings.HasPrefix(res.Oracle, "window-stall: ") && c.StressIDs == 0 {
 		c18Alone.Lock()
 		again := c18RunLocked(c)
 		c18Alone.Unlock()
@@ -1207,6 +1260,9 @@ func c18Run(ci any) Result {
 func c18RunLocked(c *c18Case) Result {
 	if c.StressIDs > 0 || c.StressG > 0 {
 		return c18RunStress(c)
+	}
+	if c.Split {
+		return c18RunSplit(c)
 	}
 	if c.Skew {
 		return c18RunSkew(c)
@@ -1261,11 +1317,16 @@ func c18Wire(c *c18Case, obs []c18Obs) (string, string) {
 // fails and the model (when compared) agrees with the implementation.
 func c18Known(ci any, res Result, modelObs string) string {
 	c := ci.(*c18Case)
-	if res.Ops != "" && res.Obs != modelObs {
-		return "" // the model does not reproduce it: something else is going on
+	if res.Ops != "" && res.Obs != modelObs && !c18Tolerable(c, res.Obs, modelObs) {
+		// the model does not reproduce it (and the difference is not one the property leaves open, see c18_tol.go):
+		// something else is going on
+		return ""
 	}
 	if c.StressIDs > 0 || c.StressG > 0 || c.NilStore || c.Many > 0 || !c.valid() {
 		return ""
+	}
+	if c.Split {
+		return c18KnownSplit(c, res)
 	}
 	if c.Skew {
 		// F19: out-of-order AllowN readings; the window bound on the readings fails even with
@@ -2031,6 +2092,13 @@ func c18Gen(r *rand.Rand, tier string) []any {
 			out = append(out, c18GenManySmall(r, 300+r.Intn(900)))
 		}
 	}
+	// round 8 (appended: the earlier cases of a seed are unchanged): goroutines parked after Unlock while sweeps run
+	for i := 0; i < n/8; i++ {
+		out = append(out, c18GenSplit(r, big && i%3 == 0))
+	}
+	for i := 0; i < n/60; i++ {
+		out = append(out, c18GenStressIdle(r))
+	}
 	return out
 }
 
@@ -2053,6 +2121,9 @@ func c18Shrink(ci any) []any {
 	}
 	if c.NilStore {
 		return nil
+	}
+	if c.Split {
+		out = append(out, c18ShrinkSplit(c)...)
 	}
 	if c.CustomHandlers != 0 {
 		d := *c
@@ -2148,12 +2219,14 @@ func c18Shrink(ci any) []any {
 func init() {
 	register(&Prop{
 		ID:             "C18",
-		Rule:           "3/5 exact stream (rate k/2^j, instants multiples of 2^-9 s: float64 arithmetic of x/time/rate is exact, decisions compared with the Lean model), 2/5 arbitrary stream (rate p/q, ns instants, incl. the F11 arrival pattern floor(i/rate): oracles only), plus high-rate exact cases where the 1 ns truncation slack shows, plus a skew stream (concurrent Store.Allow goroutines on a clock monotone in start order, some held by channels between their clock reading and AllowN while 1-3 later calls complete: out-of-order readings at the limiter, finding F19; compared with the model in AllowN order and checked against the allowance of C18_skew_bucket), plus a frozen-clock stress stream (4-15 fresh identifiers x 8-31 goroutines released together: at most / exactly burst admissions per identifier on any schedule; oracle only); a third of the middleware cases use custom Deny/ErrorHandlers (writing 429/403 and returning nil, or returning their own HTTPError); 1-4 identifiers (a fifth of the cases: 65-200 byte identifiers sharing their first 64+ bytes, differing only in the last byte, or one a prefix of the other), bursts at one instant, arrivals at/next to the refill interval, idle gaps at ExpiresIn-1,+0,+1 unit and beyond (cleanup), returns after being forgotten; ExpiresIn tight (=burst/rate), wider, default, or (exact stream only, tie only) violating ExpiresIn*rate>=burst; requests direct to Store.Allow or through the middleware (extractor error, skipper, default RealIP extractor); the middleware instances are built with RateLimiterWithConfig (with Skipper, or a hand-built config with nil Skipper; a quarter with a counted BeforeFunc) or with the convenience constructor RateLimiter(store); stores with NewRateLimiterMemoryStoreWithConfig or NewRateLimiterMemoryStore(rate); a quarter of the cases have a SECOND store with other parameters in the same process and send the requests over routes behind one limiter, a coarse limiter on the group + a strict one on the route, two limiters on one route in the other order, or two instances sharing one store (a sixth of the single-store cases use that route too), with direct calls to either store, plus a two-store expiry probe (an identifier is swept at one store, then first-time identifiers arrive at the other store with more than its burst); the Allow calls of every store are recorded: window / refusal / independence per store on its own trace, isolation = the decisions of every store re-run on a store of its own, middleware = the chain is consulted in order, each instance once, nothing behind the first refusal; one case per run checks that a config without Store is refused; plus a quota stream (1/15 of the cases): 1-10 requests per hour / day / week (exact variant: k/2^12..2^16 per second, compared with the model), burst 1-8, ExpiresIn of hours to weeks (tight, +units, doubled, whole hours), expiry probe and histories with virtual-clock jumps of that size; in a third of the cases the middleware instances get the *RateLimiterMemoryStore itself as Store (raw: optional capabilities the middleware type-asserts for are visible; one limiter per request path, the decision is read off the response) instead of the recording wrapper; plus a many-identifiers stream: 3 (thorough: 12) ordinary histories with 300-2500 first-time identifiers between the exhaustion and the return of early identifiers (compared with the model), and 2 (thorough: 8) big cases with 5k-69k (thorough: up to 270k) live identifiers in one store, 8 victims exhausted at T0 and re-probed when the table holds exactly 1000, 1024, 4096, 10000, 16384, 32768, 65535..65537, 100000, 131072, ... identifiers (oracle only: window / refusal on the victims, every first-time identifier admitted); non-trivial = some identifier is admitted again after a refusal, or returns after a gap longer than ExpiresIn; distinct = distinct model op lines / cases",
+		Rule:           "3/5 exact stream (rate k/2^j, instants multiples of 2^-9 s: float64 arithmetic of x/time/rate is exact, decisions compared with the Lean model), 2/5 arbitrary stream (rate p/q, ns instants, incl. the F11 arrival pattern floor(i/rate): oracles only), plus high-rate exact cases where the 1 ns truncation slack shows, plus a skew stream (concurrent Store.Allow goroutines on a clock monotone in start order, some held by channels between their clock reading and AllowN while 1-3 later calls complete: out-of-order readings at the limiter, finding F19; compared with the model in AllowN order and checked against the allowance of C18_skew_bucket), plus a frozen-clock stress stream (4-15 fresh identifiers x 8-31 goroutines released together: at most / exactly burst admissions per identifier on any schedule; oracle only); a third of the middleware cases use custom Deny/ErrorHandlers (writing 429/403 and returning nil, or returning their own HTTPError); 1-4 identifiers (a fifth of the cases: 65-200 byte identifiers sharing their first 64+ bytes, differing only in the last byte, or one a prefix of the other), bursts at one instant, arrivals at/next to the refill interval, idle gaps at ExpiresIn-1,+0,+1 unit and beyond (cleanup), returns after being forgotten; ExpiresIn tight (=burst/rate), wider, default, or (exact stream only, tie only) violating ExpiresIn*rate>=burst; requests direct to Store.Allow or through the middleware (extractor error, skipper, default RealIP extractor); the middleware instances are built with RateLimiterWithConfig (with Skipper, or a hand-built config with nil Skipper; a quarter with a counted BeforeFunc) or with the convenience constructor RateLimiter(store); stores with NewRateLimiterMemoryStoreWithConfig or NewRateLimiterMemoryStore(rate); a quarter of the cases have a SECOND store with other parameters in the same process and send the requests over routes behind one limiter, a coarse limiter on the group + a strict one on the route, two limiters on one route in the other order, or two instances sharing one store (a sixth of the single-store cases use that route too), with direct calls to either store, plus a two-store expiry probe (an identifier is swept at one store, then first-time identifiers arrive at the other store with more than its burst); the Allow calls of every store are recorded: window / refusal / independence per store on its own trace, isolation = the decisions of every store re-run on a store of its own, middleware = the chain is consulted in order, each instance once, nothing behind the first refusal; one case per run checks that a config without Store is refused; plus a quota stream (1/15 of the cases): 1-10 requests per hour / day / week (exact variant: k/2^12..2^16 per second, compared with the model), burst 1-8, ExpiresIn of hours to weeks (tight, +units, doubled, whole hours), expiry probe and histories with virtual-clock jumps of that size; in a third of the cases the middleware instances get the *RateLimiterMemoryStore itself as Store (raw: optional capabilities the middleware type-asserts for are visible; one limiter per request path, the decision is read off the response) instead of the recording wrapper; plus a many-identifiers stream: 3 (thorough: 12) ordinary histories with 300-2500 first-time identifiers between the exhaustion and the return of early identifiers (compared with the model), and 2 (thorough: 8) big cases with 5k-69k (thorough: up to 270k) live identifiers in one store, 8 victims exhausted at T0 and re-probed when the table holds exactly 1000, 1024, 4096, 10000, 16384, 32768, 65535..65537, 100000, 131072, ... identifiers (oracle only: window / refusal on the victims, every first-time identifier admitted); plus (round 8, 1/8 of the cases, appended) a split stream: like the skew stream but with a SHORT ExpiresIn (tight = burst/rate, +1..3 ticks, doubled, wider; a twelfth violating the side condition: tie only), so that sweeps run while goroutines are parked between Unlock and AllowN: (a) identifiers spend their burst, stay away for ExpiresIn-1tick / ExpiresIn / +1 tick / more / twice, and return at the very moment at which a call (a newcomer's, another returning identifier's, their own) triggers the sweep and is parked after Unlock, go on sending while it is parked and after it has finished; (b) random histories over 1-4 identifiers with holds of 1-6 calls and clock steps of 0, a tick, the refill time, fractions and multiples of ExpiresIn; (c) goroutines held BEFORE their clock reading (late) for a fraction of ExpiresIn, about ExpiresIn, or twice that, while another identifier sweeps and the identifier itself returns (finding F24: lastSeen is older than the limiter's own clock); a held call parks in the Nth unlocked clock reading (N=1; 1/20: N=2, never reached in the code as it is); the schedule of locked parts and tails as played is compared with the split model C18.runS (limiters in a heap), oracles on the AllowN readings per identifier: window (readings in order: plain bound; out of order: allowance of C18_skew_bucket), refusal; plus a stress-at-the-sweep stream (identifiers spend their burst, the frozen clock jumps past ExpiresIn, 5-31 goroutines per identifier are released together: exactly burst admissions each whichever goroutine sweeps); non-trivial = some identifier is admitted again after a refusal, or returns after a gap longer than ExpiresIn, or (split) a sweep / a return after expiry happens while a goroutine is parked after Unlock; distinct = distinct model op lines / cases",
 		New:            func() any { return &c18Case{} },
 		Gen:            c18Gen,
 		Run:            c18Run,
 		Shrink:         c18Shrink,
+		Mutate:         c18Mutate,
 		Known:          c18Known,
-		Correspondence: "C18.runC / C18.stepC / C18.chainAllow (lean/EchoModel/C18.lean; one store: C18.run) vs middleware.RateLimiterMemoryStore.Allow + RateLimiter / RateLimiterWithConfig instances on the injected clock",
+		Tolerable:      c18Tolerable,
+		Correspondence: "C18.runC / C18.stepC / C18.chainAllow (lean/EchoModel/C18.lean; one store: C18.run; overlapping calls: C18.runS / lockStep / tailStep) vs middleware.RateLimiterMemoryStore.Allow + RateLimiter / RateLimiterWithConfig instances on the injected clock",
 	})
 }
